@@ -366,6 +366,10 @@ def _run_sweep(ctx, progs, per):
     # element shapes x comment layouts x delete / insert at every position x trivia values
     xp = co.expr_product()
     res = pmap(co.expr_product_cases, [xp[i::32] for i in range(32)])
+    # unenclosed comma lists that get line continuations when a multi-line slice is put (string literals with '#' on the line)
+    res += [co.expr_product_cases(co.linecont_product())]
+    # re-indenting insertions (elif -> else: + if) x contents of the re-indented block x docstr option x channel
+    res += [co.reindent_product_cases(co.reindent_product())]
     res += pmap(co.edit_cases, [(p, ctx.rng.randrange(1 << 30), per) for p in progs])
     # two-step histories (replace an expression by a call, then edit a child of the new node), multi-byte text before the target
     res += pmap(co.two_step_cases, [(p, ctx.rng.randrange(1 << 30), max(3, per // 2)) for p in progs])
